@@ -193,6 +193,18 @@ def code_switches() -> dict:
         sw["ascii_digit"] = True
     else:
         raise Untranslatable(f"MLIRLexer.lex: unrecognised digit test `{t}`")
+    # (f) _lex_string_literal: STRING_LIT iff the payload is ASCII (pinned) / iff it decodes as UTF-8
+    f = _find_func(lt, "MLIRLexer", "_lex_string_literal")
+    body_src = _src(f)
+    tries = [n for n in ast.walk(f) if isinstance(n, ast.Try)]
+    if "bytes_contents.isascii()" in body_src and not tries:
+        sw["utf8_kind"] = False
+    elif len(tries) == 1 and _src(tries[0].body[0]) == "lit.bytes_contents.decode()" and len(tries[0].handlers) == 1 \
+            and _src(tries[0].handlers[0].type) == "UnicodeDecodeError" and "BYTES_LIT" in _src(tries[0].handlers[0]) \
+            and "isascii" not in body_src:
+        sw["utf8_kind"] = True
+    else:
+        raise Untranslatable("MLIRLexer._lex_string_literal: unrecognised STRING_LIT / BYTES_LIT decision")
     # (e) get_int_value / get_float_value: int()/float() wrapped in try/except ValueError -> ParseError ?
     guards = []
     for fn in ("get_int_value", "get_float_value"):
@@ -285,7 +297,7 @@ def emit_regexes(regs, sw, tabs) -> str:
         out.append(f"(* {e.name}  lines {e.lineno}-{e.end_lineno}  ascii={e.ascii} *)")
         out.append(f"Definition {name} : regex :=\n  {R.to_coq(node)}.")
     out.append("")
-    for k in ("ascii_digit", "int_guard", "label_validate", "label_redef"):
+    for k in ("ascii_digit", "int_guard", "label_validate", "label_redef", "utf8_kind"):
         out.append(f"Definition cur_fx_{k} : bool := {'true' if sw[k] else 'false'}.")
     out.append("")
     for k, rs in tabs.items():
@@ -392,6 +404,137 @@ def soup(rng, n):
 
 def no_surrogates(text):
     return "".join(c for c in text if not 0xD800 <= ord(c) <= 0xDFFF)
+
+
+# ------------------------------------------------------------------------------------------------
+# literal-interior mutations (oracle family): single-character edits INSIDE string literals and numeric tokens
+
+ATTR_SEEDS = [
+    'dense<"0x0A0B"> : tensor<2xi8>', 'dense<"0xDEADBEEF"> : tensor<1xi32>', 'dense<"0x0000803F"> : tensor<1xf32>',
+    'dense<"0x0A"> : tensor<4xi8>', 'dense<"0x0102030405060708"> : tensor<2xi32>', 'dense<"0x"> : tensor<0xi8>',
+    'dense<[1, 2, 3]> : tensor<3xi32>', 'dense<[[1, 2], [3, 4]]> : tensor<2x2xi64>', 'dense<1.5> : tensor<2xf32>',
+    'dense<[1.0, -2.5e3, 0x7fc00000]> : tensor<3xf32>', 'dense<[true, false]> : tensor<2xi1>', 'dense<> : tensor<0xi32>',
+    'dense<[0xFF, -1]> : tensor<2xi8>', 'dense<(1.0, 2.0)> : tensor<1xcomplex<f32>>', 'dense<7> : vector<4xi16>',
+    'dense<[1, 2]> : tensor<2xindex>', 'dense<0x7fc00000> : tensor<2xf32>', 'dense<-0.0> : tensor<1xf64>',
+    'array<i32: 1, 2, 3>', 'array<f32: 1.0, 0x7fc00000>', 'array<i1: true, false>', 'array<i64>', 'array<i8: -128, 127>',
+    'array<f64: 1e308, -1.5e-300>', 'array<i16: 0x7FFF, 0x8000>',
+    'dense_resource<blob1> : tensor<2xi32>', 'dense_resource<"quoted key"> : tensor<1xf32>',
+    '0x7fc00000 : f32', '0xFF : i8', '42 : i32', '-7 : index', '1.5 : f64', '1e10 : f32', '0x7FF0000000000000 : f64',
+    '0xFFFF : bf16', '123456789012345678901234567890 : i128', '-0 : i1', '1 : i1', '255 : ui8', '-128 : si8', '3 : i0',
+    '1.0 : f16', '0x3C00 : f16', '1.0 : f8E4M3FN', 'true', 'false', 'unit',
+    '"abc"', '"a\\n\\t\\\\\\"b"', '"\\00\\ff"', '"\\c3\\a9"', '""', '"é²"', '"abc" : !foo.str', '"\\7F\\80"',
+    '@foo', '@"quoted name"', '@a::@b::@"c d"', '@"\\41\\42"',
+    'affine_map<(d0, d1)[s0] -> (d0 + s0, d1 * 2, d0 floordiv 3, d1 mod 4)>', 'affine_map<() -> (0)>',
+    'affine_map<(d0) -> (d0 ceildiv 2 - 1, -d0)>', 'affine_set<(d0)[s0] : (d0 - 5 >= 0, s0 == 0)>',
+    'affine_set<(d0, d1) : (d0 * 2 - d1 + 100 >= 0)>',
+    'strided<[1, ?], offset: 3>', 'strided<[4, 1]>', 'strided<[?, ?], offset: ?>', 'strided<[], offset: 0>',
+    '#foo.bar<"x", [1,2], {a = 1}>', '#foo<"opaque<>">', 'opaque<"dialect", "data">', '#builtin.int<3>',
+    '{a = 1 : i32, "b c" = "x", c}', '[1, "a", @s, i32, 2.5 : f32]', '[]', '{}',
+    'loc("file.mlir":1:2)', 'loc(unknown)', 'loc(fused["a", "b"])', 'loc("name"("f":1:1))', 'loc(callsite("a" at "b"))',
+    '#llvm.linkage<"internal">', '#arith.fastmath<fast>', '#vector.kind<add>', '#gpu.dim x', '#gpu<dim x>',
+    '#riscv.fastmath<nnan,ninf>', '#stencil.index<1, -2>', '#memref_stream.stride_pattern<ub = [2, 3], index_map = (d0, d1) -> (d0)>',
+    '#csl<ptr_kind single>', '#llvm.cconv<ccc>', '#builtin.float_data<1.5>', '#hw.innerNameRef<@a::@b>',
+    '#hw<innerSym@s>', '#dlti.dl_entry<"k", 32 : i32>', '#emitc.opaque<"x">',
+]
+TYPE_SEEDS = [
+    'tensor<2x?x3xf32>', 'tensor<*xf32>', 'tensor<0xi8>', 'tensor<2x3xi32, "enc">', 'tensor<4294967296xi1>',
+    'memref<4x4xf32, strided<[4, 1], offset: 2>>', 'memref<?xi8, affine_map<(d0) -> (d0)>, 1 : i32>', 'memref<*xf32>',
+    'memref<2xf32, 3>', 'vector<[4]x2xi32>', 'vector<4xf16>', 'vector<2x[8]xi1>', 'i1', 'si8', 'ui64', 'i1234567', 'i0',
+    'f8E4M3FN', 'bf16', 'tf32', 'f128', 'index', 'complex<f64>', 'tuple<i32, f32>', 'tuple<>', '(i32, f32) -> (index)',
+    '() -> ()', '(i1) -> i2', '!llvm.ptr', '!llvm.ptr<3>', '!llvm.struct<(i32, f64)>', '!llvm.struct<"name", (i8)>',
+    '!llvm.array<4 x i8>', '!llvm.func<i32 (i64, ...)>', 'none', '!foo.bar<"x">', '!riscv.reg<a0>', '!riscv.freg<ft11>',
+    '!x86.reg64<rax>', '!x86.avx512reg<zmm31>', '!stencil.temp<[-1,68]x?xf64>', '!stencil.field<[0,64]xf32>',
+    '!emitc.array<2x3xi32>', '!emitc.ptr<!emitc.opaque<"T">>', '!gpu.async.token', '!pdl.range<value>',
+    '!csl.ptr<f32, #csl<ptr_kind single>, #csl<ptr_const var>>', '!hw.array<3xi8>', '!llvm.vec<4 x i32>',
+    '!snitch_stream.stride_pattern_type<2>', '!mpi.request', '!cf.dummy', '!test.type<"a b">', '!ematch.x',
+    '!transform.op<"foo.bar">', '!smt.bv<32>', '!varith.x', '!builtin.tensor<2xi32>', '!builtin.int<8>',
+]
+LIT_STR = re.compile(r'"(?:[^"\\\n]|\\.)*"')
+LIT_NUM = re.compile(r"0[xX][0-9a-fA-F]+|[0-9]+(?:\.[0-9]*)?(?:[eE][+-]?[0-9]+)?")
+LIT_INS = list("0123456789abcdefABCDEFgGxXzZ+-._eE\\\"nt qp' \x00\n") + ["é", "²", "٣", "１", "\\0", "\\x", "0x", "00"]
+
+
+def literal_spans(text):
+    spans = [("str", m.start(), m.end()) for m in LIT_STR.finditer(text)]
+    taken = [(a, b) for _, a, b in spans]
+    for m in LIT_NUM.finditer(text):
+        if not any(a <= m.start() < b for a, b in taken):
+            if m.start() > 0 and (text[m.start() - 1].isalnum() or text[m.start() - 1] in "_$.%^#!@"):
+                continue          # part of an identifier such as d0, i32, %0, ^bb1
+            spans.append(("num", m.start(), m.end()))
+    return spans
+
+
+def mutate_literal(rng, text):
+    """one single-character edit (or one boundary edit) strictly inside a string literal or numeric token"""
+    spans = literal_spans(text)
+    if not spans:
+        return None
+    kind, a, b = rng.choice(spans)
+    lo, hi = (a + 1, b - 1) if kind == "str" else (a, b)      # edit positions: inside the quotes / the token
+    op = rng.choice(["del", "ins", "ins", "rep", "special"])
+    if op == "del" and hi > lo:
+        i = rng.randrange(lo, hi)
+        return text[:i] + text[i + 1:]
+    if op == "rep" and hi > lo:
+        i = rng.randrange(lo, hi)
+        return text[:i] + rng.choice(LIT_INS) + text[i + 1:]
+    if op == "special":
+        sp = rng.choice(["empty", "droplast", "addhex", "cutescape", "long", "sign", "dup"])
+        body = text[lo:hi]
+        if sp == "empty":
+            return text[:lo] + text[hi:]
+        if sp == "droplast" and hi > lo:
+            return text[:hi - 1] + text[hi:]
+        if sp == "addhex":
+            return text[:hi] + rng.choice("0Aaf9") + text[hi:]
+        if sp == "cutescape" and "\\" in body:
+            i = lo + body.index("\\")
+            return text[:i + 1] + text[i + 2:]
+        if sp == "long":
+            return text[:hi] + rng.choice("0912fF") * rng.choice([18, 40, 330]) + text[hi:]
+        if sp == "sign":
+            i = rng.randint(lo, hi)
+            return text[:i] + rng.choice("+-") + text[i:]
+        if sp == "dup" and hi > lo:
+            return text[:lo] + body * 2 + text[hi:]
+    i = rng.randint(lo, hi)
+    return text[:i] + rng.choice(LIT_INS) + text[i:]
+
+
+LITERAL_MARKERS = ("dense<", "array<", "dense_resource", "affine_map", "affine_set", "strided<", "0x", "loc(", '\\', "opaque<")
+
+
+def literal_cases(rng, chunks, n_seed, n_corpus):
+    cases = []
+    seeds = [("attr", t) for t in ATTR_SEEDS] + [("type", t) for t in TYPE_SEEDS] + \
+            [("module", f'"test.op"() {{a = {t}}} : () -> ()') for t in ATTR_SEEDS] + \
+            [("module", f'%0 = "test.op"() : () -> ({t})') for t in TYPE_SEEDS] + \
+            [("module", f'"test.op"() <{{p = {t}}}> : () -> () loc("f":1:2)') for t in ATTR_SEEDS[:40]]
+    for mode, t in [(m, t) for m, t in seeds if m != "module"]:
+        cases.append({"kind": "literal-seed", "mode": mode, "text": t})
+    for _ in range(n_seed):
+        mode, t = rng.choice(seeds)
+        m = mutate_literal(rng, t)
+        if m is not None and rng.random() < 0.25:
+            m2 = mutate_literal(rng, m)
+            m = m2 if m2 is not None else m
+        if m is not None:
+            cases.append({"kind": "literal-interior", "mode": mode, "text": no_surrogates(m)})
+    pool = _STATE.get("literal_chunks")
+    if pool is None:
+        pool = _STATE["literal_chunks"] = [code_lines(c) for c in chunks if any(k in c for k in LITERAL_MARKERS)]
+    for _ in range(n_corpus):
+        ch = rng.choice(pool)
+        lines = ch.split("\n")
+        idx = [i for i, l in enumerate(lines) if any(k in l for k in LITERAL_MARKERS)]
+        if idx:                                  # a window of a few lines around a literal-bearing line
+            i = rng.choice(idx)
+            ch = "\n".join(lines[max(0, i - 2):i + 3])
+        m = mutate_literal(rng, ch)
+        if m is not None:
+            cases.append({"kind": "literal-interior-corpus", "mode": "module", "text": no_surrogates(m)})
+    return cases
 
 
 # ------------------------------------------------------------------------------------------------
@@ -660,6 +803,10 @@ def lex_holds(case, res):
 
 
 def lex_known(case, res):
+    return open_id(_lex_known(case, res))
+
+
+def _lex_known(case, res):
     """which recorded defect explains an internal error of the lexer + conversion"""
     text = text_of(case)
     toks = res[0]
@@ -735,13 +882,29 @@ def render_events(events) -> str:
     return "".join(out)
 
 
-def parse_code(text, limit=5.0):
+def parse_code(text, limit=5.0, mode="module"):
+    """mode: module -> parse_module, attr -> parse_attribute, type -> parse_type (plus end-of-input check)"""
     from xdsl.parser import Parser
     from xdsl.utils.exceptions import DiagnosticException, ParseError
+    import resource
     c = new_context()
+    soft, hard = resource.getrlimit(resource.RLIMIT_AS)
+    try:
+        # a literal such as dense<0.0> : tensor<9999999999xf64> must fail with MemoryError, not swap the machine
+        with open("/proc/self/statm") as f:
+            vm_now = int(f.read().split()[0]) * resource.getpagesize()
+        resource.setrlimit(resource.RLIMIT_AS, (vm_now + (3 << 30), hard))
+    except (ValueError, OSError):
+        pass
     try:
         with time_limit(limit):
-            Parser(c, text).parse_module()
+            p = Parser(c, text)
+            if mode == "module":
+                p.parse_module()
+            elif mode == "attr":
+                p.parse_attribute()
+            else:
+                p.parse_type()
         return 0, None
     except _Timeout:
         return -9, None
@@ -751,6 +914,11 @@ def parse_code(text, limit=5.0):
         return 2, e
     except BaseException as e:   # noqa: BLE001 -- the property is about exactly these
         return exc_code(e), e
+    finally:
+        try:
+            resource.setrlimit(resource.RLIMIT_AS, (soft, hard))
+        except (ValueError, OSError):
+            pass
 
 
 def labels_impl(case):
@@ -776,6 +944,10 @@ def labels_holds(case, res):
 
 
 def labels_known(case, res):
+    return open_id(_labels_known(case, res))
+
+
+def _labels_known(case, res):
     evs = case["events"]
     if res[0] == 3 and any(e[0] in ("succ", "def") and all(48 <= c <= 57 for c in e[1]) for e in evs):
         return "C07-kf-3"      # a purely numeric block name reaches the name-hint setter
@@ -813,23 +985,24 @@ def budget(n_chars: int) -> float:
 
 def dialect_frames(e: BaseException) -> bool:
     import traceback
-    return any("/xdsl/dialects/" in f.filename or "/xdsl/irdl/" in f.filename or "/xdsl/interpreters/" in f.filename
+    return any(("/xdsl/dialects/" in f.filename and not f.filename.endswith("/xdsl/dialects/builtin.py"))
+               or "/xdsl/irdl/" in f.filename or "/xdsl/interpreters/" in f.filename
                for f in traceback.extract_tb(e.__traceback__))
 
 
-def confirm_slow(text: str, lim: float) -> int:
+def confirm_slow(text: str, lim: float, mode: str = "module") -> int:
     """re-measure twice more; then require super-linear growth against the first half of the input"""
     best = None
     for _ in range(2):
         t = clock()
-        code, _e = parse_code(text, lim)
+        code, _e = parse_code(text, lim, mode)
         el = clock() - t
         best = el if best is None else min(best, el)
         if code != -9 and el <= SLACK * budget(len(text)):
             return 0
     half = text[:len(text) // 2]
     t = clock()
-    parse_code(half, lim)
+    parse_code(half, lim, mode)
     th = clock() - t
     return 1 if best > 3.0 * max(th, 0.002) else 0
 
@@ -838,14 +1011,15 @@ def oracle_impl(case):
     text = case["text"]
     lim = max(0.75, SLACK * budget(len(text)))
     t = clock()
-    code, e = parse_code(text, lim)
+    mode = case.get("mode", "module")
+    code, e = parse_code(text, lim, mode)
     el = clock() - t
     origin = 0
     if e is not None and code not in (1, 2, 8, 9, 11, 12, 13):
         origin = 2 if dialect_frames(e) else 1
     slow = 0
     if code == -9 or el > SLACK * budget(len(text)):
-        slow = confirm_slow(text, lim)
+        slow = confirm_slow(text, lim, mode)
     return [code, origin, slow]
 
 
@@ -882,7 +1056,16 @@ def kf1_plain_run(text: str, start: int):
     return n
 
 
+def open_id(kid):
+    """a class only suppresses while its finding is open (not marked fixed in known_findings*.json)"""
+    return kid if kid is not None and kid in _STATE.get("open_ids", ()) else None
+
+
 def oracle_known(case, res):
+    return open_id(_oracle_known(case, res))
+
+
+def _oracle_known(case, res):
     import traceback
     from xdsl.utils import mlir_lexer
     code, origin, slow = res
@@ -897,7 +1080,7 @@ def oracle_known(case, res):
             return orig(self, start_pos)
         mlir_lexer.MLIRLexer._lex_string_literal = spy
         try:
-            c, _ = parse_code(text, 1.0)
+            c, _ = parse_code(text, 1.0, case.get("mode", "module"))
         finally:
             mlir_lexer.MLIRLexer._lex_string_literal = orig
         if _STATE["regs"]["r_string"][0].pattern == PINNED_STRING:
@@ -906,7 +1089,7 @@ def oracle_known(case, res):
                 if run is not None and run >= 18:
                     return "C07-kf-1"   # an unterminated / ill-escaped string literal with >= 18 plain characters
         return None
-    _c, e = parse_code(text, 5.0)
+    _c, e = parse_code(text, 5.0, case.get("mode", "module"))
     if e is None:
         return None
     fr = [f for f in traceback.extract_tb(e.__traceback__) if "/xdsl/" in f.filename]
@@ -923,9 +1106,20 @@ def oracle_known(case, res):
                 depth = max(0, depth - 1)
         return "C07-kf-8" if best >= 100 else None
     if isinstance(e, ValueError) and msg.startswith("Exceeds the limit (4300"):
-        return "C07-kf-5"
+        # in builtin.py: the out-of-range diagnostic of a huge (hexadecimal) integer cannot be formatted
+        return "C07-kf-14" if fr and fr[-1].filename.endswith("/xdsl/dialects/builtin.py") else "C07-kf-5"
     if origin == 2:
         return "C07-kf-9"
+    in_builtin = bool(fr) and fr[-1].filename.endswith("/xdsl/dialects/builtin.py")
+    if isinstance(e, OverflowError) and inner == "parse_optional_builtin_int_or_float_attr":
+        return "C07-kf-10"     # hexadecimal bit pattern wider than (or negative for) the float type
+    if isinstance(e, AssertionError) and inner == "_consume_token" and "_parse_optional_complex" in names:
+        return "C07-kf-11"     # malformed complex element (a, b) of a dense literal
+    if isinstance(e, (OverflowError, MemoryError)) and inner == "parse_dense_int_or_fp_elements_attr":
+        return "C07-kf-12"     # splat dense literal over an astronomically large shape
+    if in_builtin and "parse_dense_int_or_fp_elements_attr" in names and inner in ("get_normalized_value", "pack") and \
+            (isinstance(e, ValueError) and "out of range" in msg or type(e).__name__ == "error"):
+        return "C07-kf-13"     # dense element out of range for its element type
     if isinstance(e, UnicodeDecodeError) and inner == "string_contents" and "parse_optional_symbol_name" in names:
         return "C07-kf-6"
     if isinstance(e, ValueError) and inner in ("get_int_value", "get_float_value") and \
@@ -946,7 +1140,7 @@ def oracle_known(case, res):
 
 
 def oracle_nontrivial(case, res):
-    return (res[0], res[1], res[2], hashlib.sha1(case["text"].encode("utf-8", "surrogatepass")).hexdigest()[:10]) \
+    return (case.get("mode", "module"), res[0], res[1], res[2], hashlib.sha1(case["text"].encode("utf-8", "surrogatepass")).hexdigest()[:10]) \
         if res[0] != 0 or case.get("kind") != "corpus" else None
 
 
@@ -1141,6 +1335,7 @@ def run(ctx: Ctx):
     for nm in info["unrefuted"]:
         ctx.broken.append({"obligation": f"{nm}: rx_ok cur_cfg fails and no refuting family was found by the generator"})
 
+    _STATE["open_ids"] = {e["id"] for e in ctx.known_findings}
     # 1. committed witnesses first
     warm_up()
     replay_findings(ctx, "parse", oracle_impl, oracle_holds)
@@ -1198,7 +1393,8 @@ def run(ctx: Ctx):
         texts.append(("lexer-soup", soup(rng, rng.randint(1, 25))))
     fixed = ['²', '"test.op"() {a = ²} : () -> ()', '٣٤', '٣.5', '².5', '0x', '0xg', '0x1G', '0X1', '1.e+', '1.e+5x', '..', '...', '....',
              '@', '@"', '@"a', '@"a"', '@"\\ff"', '@x', '{-# #-}', '#-}', '#-', '{-', '-', '->', '"', '""', '"\\"', '"\\q"', '"\\0"',
-             '"\\00"', '"\\ff"', '"\\7f"', '"é"', '"a\nb"', '"a\x0bb"', '%', '%1', '%a-b', '^', '^42', '!', '#', '#a<"x">',
+             '"\\00"', '"\\ff"', '"\\7f"', '"é"', '"\\c3\\a9"', '"\\e2\\82\\ac"', '"\\c3"', '"é\\a9"', '"\\ed\\a0\\80"',
+             '"\\c0\\80"', '"\\f0\\9f\\98\\80"', '"\\f4\\90\\80\\80"', '"\\e0\\80\\80"', '"a\\c3\\a9b\\n"', '"\\c3é"', '"a\nb"', '"a\x0bb"', '%', '%1', '%a-b', '^', '^42', '!', '#', '#a<"x">',
              '// c', '// c\n', '//\n//\n x', ' \t\r\n\x0b\x0c x', '\x85x', '\xa0x', ' x', '_a.b$c', 'é', 'aé', '½', '〇',
              '1' * 40, '0x' + 'f' * 40, '1.5e-10', '1e5', '"' + 'a' * 10, '"a\\nb' + 'c' * 6, "'", '\x00', '~']
     texts += [("lexer-fixed", t) for t in fixed + ['"test.op"() {a = ' + '1' * 4301 + '} : () -> ()', '7' * 4300,
@@ -1240,6 +1436,11 @@ def run(ctx: Ctx):
     for t in fixed:
         ocases.append({"kind": "fixed", "text": '"test.op"() {a = ' + t + '} : () -> ()'})
     run_oracle(ctx, "parse-module-oracle", ocases)
+
+    # 6b. literal-interior mutations: single-character edits inside string literals and numeric tokens of boundary
+    #     attribute / type texts (parse_attribute, parse_type) and of literal-bearing corpus lines (parse_module)
+    run_oracle(ctx, "literal-interior-oracle",
+               literal_cases(rng, chunks, 6000 if thorough else 420, 3000 if thorough else 140))
 
     # 7. adversarial timing of the real lexer on the model's worst-case families
     pump(ctx)
